@@ -8,6 +8,7 @@ mod c11;
 mod c12;
 mod c13;
 mod c14;
+mod c16;
 mod c17;
 mod c18;
 mod gen;
@@ -77,6 +78,7 @@ fn main() {
         "C12" => c12::run(seed, count, thorough, &mut out),
         "C13" => c13::run(seed, count, thorough, &mut out),
         "C14" => c14::run(seed, count, thorough, &mut out),
+        "C16" => c16::run(seed, count, thorough, &mut out),
         "C17" => c17::run(&mut out),
         "C18" => c18::run(seed, count, thorough, &mut out),
         other => {
